@@ -431,17 +431,23 @@ def shrink(pair, problem, keep=lambda line: False, max_trials=400):
 
 
 def load_findings():
-    """known_findings.json plus the per-component files known_findings.d/*.json (same format)"""
+    """known_findings.json (the committed file, generated by tools/mkfindings.py) plus the per-component source
+    files known_findings.d/*.json (same format); duplicates are dropped"""
     res = {"findings": [], "fixed": []}
     paths = [os.path.join(VERIF, "known_findings.json")]
     d = os.path.join(VERIF, "known_findings.d")
     if os.path.isdir(d):
         paths += [os.path.join(d, f) for f in sorted(os.listdir(d)) if f.endswith(".json")]
+    seen = set()
     for p in paths:
         if os.path.exists(p):
             obj = json.load(open(p))
-            res["findings"] += obj.get("findings", [])
-            res["fixed"] += obj.get("fixed", [])
+            for x in obj.get("findings", []):
+                key = (x.get("property"), x.get("id"))
+                if key not in seen:
+                    seen.add(key)
+                    res["findings"].append(x)
+            res["fixed"] += [x for x in obj.get("fixed", []) if x not in res["fixed"]]
     return res
 
 
